@@ -129,10 +129,10 @@ def gen_match_ranges(g):
     v = asg[0].value
     ok = isinstance(v, ast.ListComp) and len(v.generators) == 1 and not v.generators[0].ifs and ast.unparse(v.generators[0].iter) == "matches" \
         and ast.unparse(v.elt) == f"core.get_charnos({ast.unparse(v.generators[0].target)}[0], source)"
-    g.oblige("table", "ranges-are-the-charnos-of-every-match-root", [], z3.BoolVal(bool(ok)), asg[0].lineno)
+    g.oblige_text("table", "ranges-are-the-charnos-of-every-match-root", bool(ok), asg[0].lineno)
     ys = [n for n in ast.walk(fn) if isinstance(n, ast.Assign) and ast.unparse(n.targets[0]) == "item"]
     ok2 = len(ys) == 1 and isinstance(ys[0].value, ast.List) and [ast.unparse(e_) for e_ in ys[0].value.elts] == ["replacement_range", "template_replacement"]
-    g.oblige("table", "yielded-item-is-hull-and-instantiated-replacement", [], z3.BoolVal(bool(ok2)), (ys[0] if ys else fn).lineno if False else fn.lineno)
+    g.oblige_text("table", "yielded-item-is-hull-and-instantiated-replacement", bool(ok2), (ys[0] if ys else fn).lineno if False else fn.lineno)
 
 
 # ----------------------------------------------------------------------------- identity when nothing matches
